@@ -393,6 +393,14 @@ func (tic *TermInCommittee) HandlePrePrepare(ppm *interfaces.PreprepareMessage) 
 
 	header := ppm.Content().SignedHeader()
 
+	// a proposal for another view than the one this node is in is dropped by processPreprepare() anyway; asking the
+	// consumer to validate it first would run the call under the context of a view whose election timer is not armed
+	// (nothing cancels it when this node's own view times out)
+	if tic.State.View() != header.View() {
+		tic.logger.Debug("LHMSG RECEIVED PREPREPARE IGNORE - message from incorrect view %d", header.View())
+		return
+	}
+
 	ctx, err := tic.State.Contexts.For(state.NewHeightView(header.BlockHeight(), header.View()))
 	if err != nil {
 		tic.logger.Info("LHFLOW LHMSG RECEIVED PREPREPARE IGNORE - %e", err)
@@ -843,7 +851,10 @@ func (tic *TermInCommittee) HandleNewView(nvm *interfaces.NewViewMessage) {
 	if latestVote == nil {
 		header := ppm.Content().SignedHeader()
 
-		ctx, err := tic.State.Contexts.For(state.NewHeightView(nvmHeader.BlockHeight(), nvm.View()))
+		// validate under the context of the view this node is still in: the NEW_VIEW's own view is only entered (and
+		// its election timer armed) after the validation, so nothing would cancel that view's context if the timer of
+		// the current view fired meanwhile
+		ctx, err := tic.State.Contexts.For(tic.State.HeightView())
 		if err != nil {
 			tic.logger.Info("LHFLOW LHMSG RECEIVED NEW_VIEW IGNORE - %e", err)
 			return
